@@ -22,6 +22,14 @@ CHECKS.update({
    text="Explicit-state search over Add/merge histories of 2-3 writers on the real event log store; in every state: listing equals log order, ancestors first, per-writer order, every range query (every bound kind x every entry x 7 amounts) equals the index window, Get by address; around every action the old listing must be a subsequence of the new one.",
    note="Trusted: sim environment. Amount 0 accepted as any anchored window of length <= 1; bounds outside the log excluded.",
    tech="explicit-state DFS by replay over the real implementation, exhaustive query cross product in every state"),
+ "C16": dict(cat="model_checking", ref="5/C16",
+   text="Part A: explicit-state search over write/merge/announce/restart histories with a monitor running synchronously inside every write/replicated emission (entries already in log, view and cached heads; exactly-once accounting) and a 1-slot-buffer bus subscriber that only reads between actions. Part B: all interleavings (deviation-bounded, executions run to completion; unbounded for the smallest configuration) of the legacy emitter's reader and drain goroutines at their three schedule points against producer and consumer after the delivery channel was filled; the subscriber must receive the emitted sequence exactly.",
+   note="Trusted: sim environment; the three verifhook points (H3) are the complete set of interleaving points because every queue access happens under one mutex. Deviation bound and K/R in evidence.",
+   tech="explicit-state DFS with synchronous emission monitors (A); stateless deviation-bounded schedule enumeration over hooked schedule points (B)"),
+ "C19": dict(cat="model_checking", ref="5/C19",
+   text="Explicit-state search over histories of writes, merges, announcements, restarts with load and snapshot round trips; (progress,max) sampled inside every event emission and at every quiescent state must never decrease while the store is open, and at rest progress == max with max Lamport time <= value <= entry count.",
+   note="Trusted: sim environment; one database per instance; samples are linearised by reading under one lock.",
+   tech="explicit-state DFS by replay with invariant monitors at every emission and every quiescent state"),
 })
 NOT_APPLICABLE = []
 ALL = ["C%02d" % i for i in range(1, 21)]
